@@ -191,6 +191,12 @@ class TileManager(object):
         # load all in batch
         self.cache.load_tiles(tiles, with_metadata, dimensions=dimensions)
 
+        # tiles from the cache are encoded in the format of this cache. only the file cache says so,
+        # other backends return sources without image_opts and are passed on un-encoded in other formats
+        for t in tiles:
+            if t.source is not None and getattr(t.source, 'image_opts', False) is None:
+                t.source.image_opts = self.image_opts
+
         # if no real source, we are running in cache_only mode
         cache_only = self.sources == [] or (len(self.sources) == 1 and isinstance(self.sources[0], DummySource))
         # if no rescale_tiles and cache_only, we dont have any additional processing to do
